@@ -1,1 +1,7 @@
 import BU.Properties.C10
+#print axioms C10.prefixes
+#print axioms C10.to_string_eq
+#print axioms C10.accept_sound
+#print axioms C10.roundtrip
+#print axioms C10.from_hash160
+#print axioms C10.pubkey_address
